@@ -3,7 +3,8 @@ C16 — Writes are all-or-nothing at every interruption point.
 
 Property theorems only (the invariant and the induction live in Octave/Lemmas).  Every theorem is
 generic: it holds for **any** structured program `s` that passes the decidable check
-`s.disciplined c.params` (Spec/Discipline.lean), for all file systems `fs`, calls `c` (target, text to
+`s.disciplined .c16 c.params` (Spec/Discipline.lean; `.c16` = the clauses C16 needs, without the
+compare-and-swap clause that belongs to C17), for all file systems `fs`, calls `c` (target, text to
 write, base_hash, mode, dry-run flag, pure pipeline as functions), hash functions `H`, and worlds `w`
 (crash point `crashAt`, crash inside an op `crashMid` with any `cut`, any set of injected faults
 `fault : Nat → Option Errno`).  The generated programs of the three write paths pass the check by
@@ -28,25 +29,27 @@ def newText (c : Call) (out : Out) : Data := c.canon out.st.regs.base
 faults — the target holds exactly what it held before (same node: bytes, mode; or still absent), or
 the complete new text, durable. -/
 theorem C16_all_or_nothing (s : Stmt) (c : Call) (w : World) (fs : Fs) (hc : CallOK c fs)
-    (hd : s.disciplined c.params = true) :
+    (hd : s.disciplined .c16 c.params = true) :
     (exec H s c w fs).st.fs c.target = fs c.target ∨
       ∃ m, (exec H s c w fs).st.fs c.target = some (.file (newText c (exec H s c w fs)) m true) := by
-  have hp := exec_post H s c w fs hc hd
+  have hp := exec_post .c16 H s c w fs hc hd
   unfold Post at hp
   generalize exec H s c w fs = out at hp ⊢
   rcases out with ⟨res, st⟩
   cases res with
   | crashed =>
-    rcases hp with hp | ⟨m, h1, _⟩
+    rcases hp with hp | ⟨m, sy, h1, h2, _⟩
     · exact Or.inl hp
-    · exact Or.inr ⟨m, h1⟩
+    · obtain ⟨rfl, _⟩ := h2 rfl
+      exact Or.inr ⟨m, h1⟩
   | ok h =>
     obtain ⟨a, hI, _, h2⟩ := hp
     by_cases hdry : c.dry = true
     · simp only [hdry, if_true] at h2
       exact Or.inl (by rw [hI.clean h2.1])
     · simp only [hdry] at h2
-      obtain ⟨m, h1, _⟩ := hI.inst (by simpa using h2)
+      obtain ⟨m, sy, h1, h3, _⟩ := hI.inst (by simpa using h2)
+      obtain ⟨rfl, _⟩ := h3 rfl
       exact Or.inr ⟨m, h1⟩
   | err code =>
     obtain ⟨a, hI, h1, _⟩ := hp
@@ -61,7 +64,7 @@ theorem C16_all_or_nothing (s : Stmt) (c : Call) (w : World) (fs : Fs) (hc : Cal
 arbitrary prefix (`cut`), and still the target is its previous self or the complete new text.
 (Hypothesis: the previous version of the target was itself durable.) -/
 theorem C16_all_or_nothing_power_loss (s : Stmt) (c : Call) (w : World) (fs : Fs) (hc : CallOK c fs)
-    (hd : s.disciplined c.params = true)
+    (hd : s.disciplined .c16 c.params = true)
     (hdur : ∀ d m sy, fs c.target = some (.file d m sy) → sy = true) (cut : Path → Nat) :
     ((exec H s c w fs).st.fs.powerLoss cut) c.target = fs c.target ∨
       ∃ m, ((exec H s c w fs).st.fs.powerLoss cut) c.target = some (.file (newText c (exec H s c w fs)) m true) := by
@@ -83,7 +86,7 @@ theorem C16_all_or_nothing_power_loss (s : Stmt) (c : Call) (w : World) (fs : Fs
 no clean-up call (`os.path.exists(temp)`, `os.unlink(temp)`) itself failed, the target is exactly as
 before, no temp file is left, and nothing else changed except directories `mkdir -p` created. -/
 theorem C16_error_clean (s : Stmt) (c : Call) (w : World) (fs : Fs) (hc : CallOK c fs)
-    (hd : s.disciplined c.params = true)
+    (hd : s.disciplined .c16 c.params = true)
     (herr : (∃ code, (exec H s c w fs).res = .err code) ∨ (exec H s c w fs).res = .raised)
     (hcf : (exec H s c w fs).st.cf = false) :
     (exec H s c w fs).st.fs c.target = fs c.target ∧
@@ -91,11 +94,11 @@ theorem C16_error_clean (s : Stmt) (c : Call) (w : World) (fs : Fs) (hc : CallOK
     ∀ p, p ≠ c.target → p ≠ c.tmpName →
       (exec H s c w fs).st.fs p = fs p ∨
         (p.isPrefixOf (parentOf c.target) = true ∧ fs p = none ∧ (exec H s c w fs).st.fs p = some .dir) := by
-  have hp := exec_post H s c w fs hc hd
+  have hp := exec_post .c16 H s c w fs hc hd
   unfold Post at hp
   generalize exec H s c w fs = out at hp herr hcf ⊢
   rcases out with ⟨res, st⟩
-  have key : ∀ a, Inv H c fs a st.regs st.fs st.cf → a.errOk = true →
+  have key : ∀ a, Inv .c16 H c fs a st.regs st.fs st.cf → a.errOk = true →
       st.fs c.target = fs c.target ∧ st.fs c.tmpName = none ∧
       ∀ p, p ≠ c.target → p ≠ c.tmpName →
         st.fs p = fs p ∨ (p.isPrefixOf (parentOf c.target) = true ∧ fs p = none ∧ st.fs p = some .dir) := by
@@ -122,14 +125,14 @@ theorem C16_error_clean (s : Stmt) (c : Call) (w : World) (fs : Fs) (hc : CallOK
 it was a dry run the target holds exactly the new text (durable), an existing file kept its
 permission bits, and no temp file is left. -/
 theorem C16_success (s : Stmt) (c : Call) (w : World) (fs : Fs) (hc : CallOK c fs)
-    (hd : s.disciplined c.params = true) (h : Hash) (hok : (exec H s c w fs).res = .ok h) :
+    (hd : s.disciplined .c16 c.params = true) (h : Hash) (hok : (exec H s c w fs).res = .ok h) :
     h = H (newText c (exec H s c w fs)) ∧
     (c.dry = false →
       (∃ m, (exec H s c w fs).st.fs c.target = some (.file (newText c (exec H s c w fs)) m true) ∧
             ∀ d m0 sy, fs c.target = some (.file d m0 sy) → m = m0) ∧
       (exec H s c w fs).st.fs c.tmpName = none) ∧
     (c.dry = true → (exec H s c w fs).st.fs = fs) := by
-  have hp := exec_post H s c w fs hc hd
+  have hp := exec_post .c16 H s c w fs hc hd
   unfold Post at hp
   unfold newText
   generalize exec H s c w fs = out at hp hok ⊢
@@ -141,8 +144,10 @@ theorem C16_success (s : Stmt) (c : Call) (w : World) (fs : Fs) (hc : CallOK c f
   · intro hdry
     simp only [hdry] at h2
     have h3 : a.tmp = .installed := by simpa using h2
-    obtain ⟨m, e1, e2, _⟩ := hI.inst h3
-    exact ⟨⟨m, e1, e2⟩, hI.tgone (Or.inr h3)⟩
+    obtain ⟨m, sy, e1, e2, _⟩ := hI.inst h3
+    obtain ⟨hsy, e3⟩ := e2 rfl
+    subst hsy
+    exact ⟨⟨m, e1, e3⟩, hI.tgone (Or.inr h3)⟩
   · intro hdry
     simp only [hdry, if_true] at h2
     exact hI.clean h2.1
@@ -150,27 +155,27 @@ theorem C16_success (s : Stmt) (c : Call) (w : World) (fs : Fs) (hc : CallOK c f
 /-- **Validation first.**  When the call answers a validation error (path, arguments, missing file,
 tokenize / parse / apply / emit), no mutating call was even attempted: the file system is untouched. -/
 theorem C16_validate_first (s : Stmt) (c : Call) (w : World) (fs : Fs) (hc : CallOK c fs)
-    (hd : s.disciplined c.params = true) (code : Code) (hv : code.isValidation = true)
+    (hd : s.disciplined .c16 c.params = true) (code : Code) (hv : code.isValidation = true)
     (herr : (exec H s c w fs).res = .err code) : (exec H s c w fs).st.fs = fs := by
-  have hp := exec_post H s c w fs hc hd
+  have hp := exec_post .c16 H s c w fs hc hd
   unfold Post at hp
   generalize exec H s c w fs = out at hp herr ⊢
   rcases out with ⟨res, st⟩
   simp only at herr
   subst herr
   obtain ⟨a, hI, _, h2, _⟩ := hp
-  exact hI.clean (h2 hv)
+  exact hI.clean (h2 rfl hv)
 
 /-! ### The generated programs have the discipline (re-proved whenever the source changes) -/
 
 set_option maxRecDepth 100000 in
-theorem gen_writeTool_disciplined : AtomicDiscipline Gen.writeToolStmt := by decide
+theorem gen_writeTool_disciplined : Disciplined .c16 Gen.writeToolStmt := by decide
 
 set_option maxRecDepth 100000 in
-theorem gen_atomicWrite_disciplined : AtomicDisciplineW Gen.atomicWriteStmt := by decide
+theorem gen_atomicWrite_disciplined : DisciplinedW .c16 Gen.atomicWriteStmt := by decide
 
 set_option maxRecDepth 100000 in
-theorem gen_cliWrite_disciplined : AtomicDisciplineW Gen.cliWriteStmt := by decide
+theorem gen_cliWrite_disciplined : DisciplinedW .c16 Gen.cliWriteStmt := by decide
 
 /-- Every file-system call inside the two path validators is read-only and guarded (a failure makes
 the path invalid instead of raising): the composite op `validatePath` is a read that never raises. -/
@@ -248,16 +253,16 @@ example : (exec Hid Gen.writeToolStmt { callEx with fails := fun _ => some .E_PA
 
 /-- The discipline is not trivially true: a program that writes directly to the target, one that
 replaces before fsync, and one that forgets the unlink in its handler are all rejected. -/
-example : (Stmt.block [.op (.openW .target), .op (.write .canonical), .op .close, .ret .ok]).disciplined ⟨.content, false, false⟩ = false := by
+example : (Stmt.block [.op (.openW .target), .op (.write .canonical), .op .close, .ret .ok]).disciplined .c16 ⟨.content, false, false⟩ = false := by
   decide
 example : (Stmt.block [.op (.mkstemp .parent), .op .fdopen, .op (.write .canonical), .op .flush, .op .close,
-    .op (.replace .temp .target), .ret .ok]).disciplined ⟨.content, false, false⟩ = false := by decide
+    .op (.replace .temp .target), .ret .ok]).disciplined .c16 ⟨.content, false, false⟩ = false := by decide
 example : (Stmt.block [.op (.exists_ .target), .ite .last (.ret (.err .E_WRITE)) .skip, .op (.mkstemp .parent),
     .try_ (.block [.op .fdopen, .op (.write .canonical), .op .flush, .op .fsync, .op .close, .op (.replace .temp .target)])
-      (.ret (.err .E_WRITE)), .ret .ok]).disciplined ⟨.content, false, false⟩ = false := by decide
+      (.ret (.err .E_WRITE)), .ret .ok]).disciplined .c16 ⟨.content, false, false⟩ = false := by decide
 /-- … and the same program with the unlink is accepted. -/
 example : (Stmt.block [.op (.exists_ .target), .ite .last (.ret (.err .E_WRITE)) .skip, .op (.mkstemp .parent),
     .try_ (.block [.op .fdopen, .op (.write .canonical), .op .flush, .op .fsync, .op .close, .op (.replace .temp .target)])
-      (.block [.op (.unlink .temp), .ret (.err .E_WRITE)]), .ret .ok]).disciplined ⟨.content, false, false⟩ = true := by decide
+      (.block [.op (.unlink .temp), .ret (.err .E_WRITE)]), .ret .ok]).disciplined .c16 ⟨.content, false, false⟩ = true := by decide
 
 end Octave.C16
